@@ -207,6 +207,9 @@ def check(run, prog):
                           lo3 + 1000 * hi3, lo + 1000 * hi, constraints=_big_delay(cons))
     from .. import structural
     structural.report(ck, prog, "R2", [f_chirp, f_tf, f_cfs, f_coh], "pulsarbat/transforms/dedispersion.py")
+    # the FFT routines work on (views of) the caller's data: they must never be given permission to overwrite their operand
+    from ..structural import overwrite_report
+    overwrite_report(ck, prog, "R2")
     run.extra["decided_by"] = ck.how
 
 
